@@ -101,6 +101,18 @@ impl SpanLine {
         }
     }
 
+    /// Whether properties added to the current local parent of this span line are recorded.
+    #[inline]
+    pub fn is_recording(&self) -> bool {
+        self.is_sampled
+    }
+
+    /// Whether properties added through `handle` are recorded by this span line.
+    #[inline]
+    pub fn is_recording_span(&self, handle: &LocalSpanHandle) -> bool {
+        self.is_sampled && self.epoch == handle.span_line_epoch
+    }
+
     #[inline]
     pub fn current_collect_token(&self) -> Option<CollectToken> {
         self.collect_token.as_ref().map(|collect_token| {
